@@ -6,7 +6,7 @@ length; after each kill the content area is walked and every file's digest is
 recomputed."""
 import os
 
-from .. import crash, drv, ev, gen, ref, sysm
+from .. import crash, drv, ev, gen, interleave, ref, sysm
 
 MIB = gen.MIB
 
@@ -63,7 +63,11 @@ def run(ctx):
                 "the K-byte write, then the process is killed). Async modes are multi-threaded: each N is run 2-3 "
                 "times. After each kill: every file under content-v2 must sit at <algo>/xx/yy/<rest> and hash to its "
                 "path (sha*: hashlib; xxh3: equal to the data known for that address), and a fresh process must "
-                "answer exists/read_hash consistently. distinct = (scenario, kill point, torn length)")
+                "answer exists/read_hash consistently. distinct = (scenario, kill point, torn length). "
+                "(2) overlapping writers of one process (cv/interleave.py): 2-3 writers (same or different data, "
+                "declared size / integrity or not, keyed or by address, sync and async handles) are kept open by the "
+                "driver and advanced one step at a time in a random merge of their steps; after EVERY step the content "
+                "area is walked and re-hashed from outside while the other writers are still in flight")
     ctx.assumptions = ["process kill only (no power loss; the library never fsyncs)",
                        "memory-mapped stores are not system calls; their partial states live only in the private temp file"]
     ctx.exhaustive = True
@@ -182,6 +186,9 @@ def run(ctx):
         if ext:
             ctx.rm(ext)
         ctx.rm(work)
+    # ---------------- (2) overlapping writers, content area inspected between any two steps
+    interleave.run(ctx, drv.QUICK_MODES if ctx.quick else drv.ALL_MODES, 1500 if ctx.quick else 20000,
+                   content_monitor=True, results_monitor=False, big=not ctx.quick)
     ctx.extra["distinct_on_disk_states_after_kill"] = len(states)
     ctx.extra["scenarios"] = [f"{s.name}@{s.mode}" for s in scs]
     ctx.extra["kill_and_torn_points"] = total_points
